@@ -4,6 +4,7 @@
 -/
 import Gzx.Model.DetWhiteRect
 import Gzx.Model.DetQRDetector
+import Gzx.Model.DetDM
 namespace Gzx.Driver.C06Det
 open Gzx Gzx.Det
 
@@ -134,6 +135,37 @@ def handleQR : List String → Option String
     | .error e => showFault e
   | _ => none
 
+def parsePt? (s : String) : Option (FPt Float) :=
+  match s.splitOn "," with
+  | [x, y] => match parseF? x, parseF? y with
+    | some x, some y => some { x := x, y := y }
+    | _, _ => none
+  | _ => none
+
+def showPt (p : FPt Float) : String := s!"{showF p.x},{showF p.y}"
+
+def handleDM : List String → Option String
+  | ["dmtrans", w, h, bits, p, q] => some <| withImg w h bits fun img _ h =>
+    match parsePt? p, parsePt? q with
+    | some p, some q =>
+      match DM.transitionsBetween FOps.float img.rdGo h p q with
+      | .ok n => s!"ok {n}"
+      | .error e => showFault e
+    | _, _ => "bad-op"
+  | ["dmctr", w, h, bits, a, b, c, d] => some <| withImg w h bits fun img w h =>
+    match parsePt? a, parsePt? b, parsePt? c, parsePt? d with
+    | some a, some b, some c, some d =>
+      match DM.correctTopRight FOps.float img.rdGo w h ⟨a, b, c, d⟩ with
+      | .ok (some p) => "ok " ++ showPt p
+      | .ok none => "ok nil"
+      | .error e => showFault e
+    | _, _, _, _ => "bad-op"
+  | ["dmdetect", w, h, bits] => some <| withImg w h bits fun img w h =>
+    match DM.detect FOps.float img.rdGo w h with
+    | .ok l => s!"ok {showPt l.topLeft};{showPt l.bottomLeft};{showPt l.bottomRight};{showPt l.topRight} dim={l.dimensionTop}x{l.dimensionRight}"
+    | .error e => showFault e
+  | _ => none
+
 def handleWRD : List String → String
   | ["wrd", w, h, bits, initSize, x, y] =>
     match parseNat? w, parseNat? h, parseInt? initSize, parseInt? x, parseInt? y with
@@ -159,6 +191,9 @@ def handleWRD : List String → String
 def handle (args : List String) : String :=
   match handleQR args with
   | some r => r
-  | none => handleWRD args
+  | none =>
+    match handleDM args with
+    | some r => r
+    | none => handleWRD args
 
 end Gzx.Driver.C06Det
